@@ -333,7 +333,100 @@ def d4_who_may_delete(ctx):
     ctx.note(f"destructive call sites found: {len(sites)}; table rows matched: {len(seen & set(OWNER_TABLE))}/{len(OWNER_TABLE)}")
 
 
+def d6_one_indexing_surface(ctx):
+    ctx.rule("D6", "compressed and flat files are read through one indexing surface: every sample selector handed to self._raw is the caller's own selector, or a piece "
+                   "[a:b:step] of the caller's slice whose start lies on the slice's own stride grid (a == start modulo step)")
+    from sa.algebra import Evaluator, Poly, SymExec, Undecided
+    repo = ctx.repo
+    n = 0
+    for q in ("spikeglx.Reader.read", "spikeglx.Reader.read_sync_digital"):
+        fi = repo.fn(q)
+        params = [p_ for p_ in fi.params if p_ != "self"]
+        if not params:
+            continue
+        sel = params[0]
+        subs = [x for x in walk_function(fi.node) if isinstance(x, ast.Subscript) and isinstance(x.ctx, ast.Load) and loc_name(x.value) == "self._raw"]
+        parents = {}
+        for p_ in ast.walk(fi.node):
+            for c_ in ast.iter_child_nodes(p_):
+                parents[id(c_)] = p_
+        # the decomposition of the caller's slice, if any:  start, stop, step = nsel.indices(n)
+        dec = None
+        for st in walk_function(fi.node):
+            if isinstance(st, ast.Assign) and isinstance(st.targets[0], ast.Tuple) and len(st.targets[0].elts) == 3 and isinstance(st.value, ast.Call) \
+                    and call_name(st.value) == "indices" and isinstance(st.value.func, ast.Attribute) and loc_name(st.value.func.value) == sel:
+                dec = [loc_name(e) for e in st.targets[0].elts]
+        for sub in subs:
+            row = sub.slice.elts[0] if isinstance(sub.slice, ast.Tuple) and sub.slice.elts else sub.slice
+            n += 1
+            if loc_name(row) == sel:
+                ctx.ok(fi, sub, sub, "the caller's selector is handed to the raw store unchanged", key=f"surface:{q.rsplit('.', 1)[-1]}:{norm(sub)[:40]}")
+                continue
+            if not isinstance(row, ast.Slice):
+                raise AnalysisError(f"{q}: sample selector `{src(row)}` of `{src(sub)[:60]}` is neither the caller's selector nor a slice")
+            if dec is None or any(d is None for d in dec):
+                raise AnalysisError(f"{q}: `{src(sub)[:60]}` builds its own sample slice but the caller's slice is not decomposed with .indices()")
+            start, stop, step = dec
+            # evaluate the statements of the enclosing block(s) that precede the read, from the outermost loop body inwards
+            chain = []
+            cur = sub
+            while id(cur) in parents:
+                par = parents[id(cur)]
+                for fld in ("body", "orelse"):
+                    lst = getattr(par, fld, None)
+                    if isinstance(lst, list) and any(cur is x for x in lst):
+                        chain.append((lst, cur))
+                cur = par
+
+            recorded = {}
+
+            class Ev(Evaluator):
+                def atom(self, name, *args):
+                    p = super().atom(name, *args)
+                    recorded[p.canon()] = (name, args)
+                    return p
+            ev = Ev(resolve=lambda e: repo.resolve_expr(fi, e))
+            ev.facts.int_syms |= {start, stop, step}
+            sx = SymExec(ev, on_undecided="havoc")
+            for lst, upto in reversed(chain):
+                for st in lst:
+                    if st is upto:
+                        break
+                    if isinstance(st, ast.Assign) and isinstance(st.value, ast.Call) and call_name(st.value) == "indices":
+                        continue   # start / stop / step stay the symbols of the caller's slice
+                    if isinstance(st, (ast.Assign, ast.AugAssign)):
+                        sx.step(st)
+            try:
+                lo = ev.ev(row.lower) if row.lower is not None else Poly.const(0)
+                sp = ev.ev(row.step) if row.step is not None else Poly.const(1)
+            except Undecided as ex:
+                raise AnalysisError(f"{q}: bounds of `{src(sub)[:60]}` not evaluable: {ex}")
+            S, ST = Poly.sym(start), Poly.sym(step)
+            ctx.check(sp == ST, fi, sub, sub, "the piece is read with the caller's step", f"`{src(sub)[:70]}` reads with step {sp}, the caller asked for {ST}", key=f"piece-step:{norm(sub)[:30]}",
+                      name_free=True)
+            # residue of (lo - start) modulo step:  mod(x, step) == x  (mod step)
+            r = lo - S
+            for _ in range(4):
+                changed = False
+                for sym in list(r.symbols()):
+                    rec = recorded.get(sym)
+                    if rec and rec[0] == "mod" and len(rec[1]) == 2 and rec[1][1] == ST:
+                        r = r.subs({sym: rec[1][0]})
+                        changed = True
+                if not changed:
+                    break
+            qd = r.div(ST)
+            onsame = r.is_zero() or (qd is not None and ev.facts.is_integer(qd))
+            ctx.check(onsame, fi, sub, f"{src(sub)[:70]} : start offset == {r} (mod {step})", "each piece starts on the stride grid of the requested slice",
+                      f"`{src(sub)[:70]}`: the piece starts at {lo}; relative to the slice start that is {r} modulo {step}, not 0: from the second piece on the stride restarts with the wrong "
+                      f"phase whenever {r} is not a multiple of {step} - the compressed reader returns other samples than the flat file for the same selector (only for step >= 3 across a chunk boundary)",
+                      key=f"piece-phase:{norm(sub)[:30]}", name_free=True)
+    if n == 0:
+        raise AnchorMissing("no read of self._raw found in Reader.read / read_sync_digital")
+
+
 def run(ctx):
+    ctx.run(d6_one_indexing_surface)
     ctx.run(d1_atomic)
     ctx.run(d2_source_last)
     ctx.run(d3_companion)
